@@ -101,6 +101,44 @@ Theorem C07_get_word :
 Proof. exact get_word_correct. Qed.
 Print Assumptions C07_get_word.
 
+(* ---- observations.  EVERY history in which writes and observations (len, get_byte,
+   slice, get_word, unwrap, v[start:stop]) are interleaved in any way: each observation
+   returns what the flat array shows at that moment -- in particular an observation
+   repeated after a write shows the write, whatever was observed before it (no derived
+   view of the sequence may survive a write) ---- *)
+Theorem C07_trace :
+  forall (B : Type) (zero : B) (es : list (ev B)),
+    Forall ev_ok es ->
+    trace B zero empty es = fa_trace B zero [] (map abs_ev es).
+Proof. exact trace_from_empty. Qed.
+Print Assumptions C07_trace.
+
+(* the same from ANY well-formed state *)
+Theorem C07_trace_step :
+  forall (B : Type) (zero : B) (es : list (ev B)) (v : bvec B),
+    wf v -> Forall ev_ok es ->
+    trace B zero v es = fa_trace B zero (flat v) (map abs_ev es).
+Proof. exact trace_correct. Qed.
+Print Assumptions C07_trace_step.
+
+Theorem C07_observe :
+  forall (B : Type) (zero : B) (v : bvec B) (q : obs),
+    wf v -> observe B zero v q = fa_observe B zero (flat v) (abs_obs q).
+Proof. exact observe_correct. Qed.
+Print Assumptions C07_observe.
+
+(* a byte written, the whole read, the SAME byte overwritten (its chunk is exactly one byte
+   long), the whole read again, twice, then the other reads *)
+Example C07_trace_nonvacuous :
+  trace nat 0 empty
+    [ EOp (OSetByte 0 false 17); EOp (OSetSlice 1 4 (wrap false [97; 98; 99])); EObs OUnwrap;
+      EOp (OSetByte 0 false 34); EObs OUnwrap; EObs OUnwrap; EObs (OGet 0); EObs OLen;
+      EObs (OItem None (Some 2)); EObs (OWord 2) ] =
+    [ FRBytes [17; 97; 98; 99]; FRBytes [34; 97; 98; 99]; FRBytes [34; 97; 98; 99]; FRBytes [34]; FRLen 4;
+      FRBytes [34; 97];
+      FRBytes [98; 99; 0; 0; 0; 0; 0; 0; 0; 0; 0; 0; 0; 0; 0; 0; 0; 0; 0; 0; 0; 0; 0; 0; 0; 0; 0; 0; 0; 0; 0; 0] ].
+Proof. exact trace_example. Qed.
+
 (* ---- the __setitem__ sugar  v[start:stop] = value  (start = key.start or 0,
    stop = key.stop if key.stop is not None else self.length; the two bound expressions
    are regenerated from bytevec.py into Gen/GenByteVecSugar.v): it is the flat slice
